@@ -408,6 +408,7 @@ def run(ctx: core.Ctx):
         _stream_pairs(ctx, workers)
         _stream_exhaustive(ctx, workers)
         _stream_structured(ctx, workers)
+        _stream_git(ctx, workers)
         _run_corpus(ctx, workers)
     finally:
         for v in workers.values():
@@ -614,6 +615,145 @@ def _stream_structured(ctx, workers):
         _compare_decoders(ctx, "structured", workers, base, [d for _, d in lst], tags=[k for k, _ in lst])
     k, d = by_base[bases[2]][0] if bases[2] in by_base else ("-", b"")
     ctx.sample({"stream": "structured", "kind": k, "base": "00..ff", "delta": hx(d)})
+
+
+# ------------------------------------------------------------------------------------------------
+# C git as third encoder / decoder
+
+def _obj_hdr(type_num: int, size: int) -> bytes:
+    c = (type_num << 4) | (size & 0x0F)
+    size >>= 4
+    out = bytearray()
+    while size:
+        out.append(c | 0x80)
+        c = size & 0x7F
+        size >>= 7
+    out.append(c)
+    return bytes(out)
+
+
+def _git(args, cwd, inp=None):
+    import subprocess
+    p = subprocess.run(["git"] + args, cwd=cwd, input=inp, stdout=subprocess.PIPE, stderr=subprocess.PIPE,
+                       env=core.clean_env(), timeout=120)
+    return p.returncode, p.stdout, p.stderr
+
+
+def _parse_pack(data: bytes):
+    """Minimal pack reader (independent of dulwich): yields (type, size, base_ref|ofs, payload)."""
+    import struct
+    import zlib
+    assert data[:4] == b"PACK"
+    n = struct.unpack(">L", data[8:12])[0]
+    pos = 12
+    for _ in range(n):
+        start = pos
+        c = data[pos]
+        pos += 1
+        typ, size, sh = (c >> 4) & 7, c & 0x0F, 4
+        while c & 0x80:
+            c = data[pos]
+            pos += 1
+            size |= (c & 0x7F) << sh
+            sh += 7
+        base = None
+        if typ == 7:
+            base = data[pos:pos + 20]
+            pos += 20
+        elif typ == 6:
+            c = data[pos]
+            pos += 1
+            ofs = c & 0x7F
+            while c & 0x80:
+                c = data[pos]
+                pos += 1
+                ofs = ((ofs + 1) << 7) | (c & 0x7F)
+            base = start - ofs
+        d = zlib.decompressobj()
+        payload = d.decompress(data[pos:])
+        pos = len(data) - len(d.unused_data)
+        yield start, typ, size, base, payload
+
+
+def _stream_git(ctx, workers):
+    """dulwich-created deltas decoded by C git (index-pack of a hand-framed 2-object pack) and git-created
+    deltas (git pack-objects) decoded by both dulwich decoders."""
+    import hashlib
+    import shutil
+    import zlib
+    if shutil.which("git") is None:
+        ctx.notes.append("git not found: C git streams skipped")
+        return
+    rng = ctx.rng
+    n = ctx.budget(12, mult=10)
+    root = ctx.scratch / "git"
+    root.mkdir(exist_ok=True)
+
+    def blob_id(b):
+        return hashlib.sha1(b"blob %d\0" % len(b) + b).hexdigest()
+    for i in range(n):
+        kind, base, target = gen_pair(rng, big=(i % 6 == 5))
+        if i == 0:
+            kind, base, target = "witness-F21", b"x" * 40, b""   # known finding F21: re-run every time
+        if base == target:
+            target = target + b"!"
+        repo = root / f"r{i}"
+        rc, _, err = _git(["init", "-q", "--bare", str(repo)], cwd=root)
+        if rc != 0:
+            raise core.InfraError(f"git init failed: {err[:200]}")
+        # (a) dulwich encoder -> git decoder
+        for enc, wk in workers.items():
+            rep = wk.ask({"mod": MOD, "op": "create", "args": {"base": hx(base), "target": hx(target)}}, timeout=300)
+            if "r" not in rep:
+                continue
+            delta = unhx(rep["r"])
+            body = (_obj_hdr(3, len(base)) + zlib.compress(base) +
+                    _obj_hdr(7, len(delta)) + bytes.fromhex(blob_id(base)) + zlib.compress(delta))
+            pack = b"PACK" + (2).to_bytes(4, "big") + (2).to_bytes(4, "big") + body
+            pack += hashlib.sha1(pack).digest()
+            rc, out, err = _git(["index-pack", "--strict", "--stdin"], cwd=repo, inp=pack)
+            got = None
+            if rc == 0:
+                rc2, got, _ = _git(["cat-file", "blob", blob_id(target)], cwd=repo)
+                if rc2 != 0:
+                    got = None
+            ctx.count("git.decode", (enc, base, target), True, f"{kind}:{enc}->git")
+            if got != target:
+                # git's patch_delta() refuses any delta shorter than DELTA_SIZE_MIN = 4 bytes
+                cls = "git-rejects-delta-shorter-than-4-bytes" if len(delta) < 4 else None
+                ctx.oracle_fail("git.decode", {"enc": enc, "dec": "git", "base": hx(base), "target": hx(target), "delta": hx(delta)},
+                                f"C git does not decode the {enc} delta to the target: rc={rc} {err[:120]!r}", cls)
+        # (b) git encoder -> dulwich decoders
+        ids = []
+        for b in (base, target):
+            rc, out, err = _git(["hash-object", "-w", "--stdin", "-t", "blob"], cwd=repo, inp=b)
+            ids.append(out.strip().decode())
+        rc, pk, err = _git(["pack-objects", "--stdout", "--window=10", "--depth=50", "-q"], cwd=repo,
+                           inp=("\n".join(ids) + "\n").encode())
+        if rc != 0 or pk[:4] != b"PACK":
+            continue
+        ents = list(_parse_pack(pk))
+        by_start = {e[0]: e for e in ents}
+        full = {hashlib.sha1(b"blob %d\0" % len(e[4]) + e[4]).digest(): e[4] for e in ents if e[1] == 3}
+        for start, typ, size, bref, payload in ents:
+            if typ not in (6, 7):
+                continue
+            gb = by_start[bref][4] if typ == 6 else full.get(bref)
+            if gb is None:
+                continue
+            expect = target if gb == base else base
+            for dec, wk in workers.items():
+                rep = wk.ask({"mod": MOD, "op": "apply", "args": {"base": hx(gb), "delta": hx(payload)}}, timeout=300)
+                r = classify_decode(ctx, "git.encode", dec, gb, payload, rep)
+                ctx.count("git.encode", (dec, base, target), True, f"{kind}:git->{dec}")
+                if r != "ok " + hx(expect):
+                    ctx.oracle_fail("git.encode", {"enc": "git", "dec": dec, "base": hx(gb), "target": hx(expect), "delta": hx(payload)},
+                                    f"{dec} decoder does not decode C git's delta to the target: {r[:80]}")
+            # the model decoder on git's delta as well (correspondence)
+            o = ctx.driver.batch([f"c03.apply {hx(gb)} {hx(payload)}"])[0]
+            if o != "ok " + hx(expect):
+                ctx.disagree("git.encode.model", {"base": hx(gb), "delta": hx(payload)}, o[:100], "ok " + hx(expect)[:100])
+        shutil.rmtree(repo, ignore_errors=True)
 
 
 def _run_corpus(ctx, workers):
